@@ -226,7 +226,7 @@ def cores_case(draw):
     # caller changed a core array in place)
     entry = draw(st.sampled_from(['ctor', 'ortho', 'left_then_right', 'right_then_left', 'left_only', 'right_only',
                                   'partial_left_then_ortho', 'partial_right_then_ortho', 'sweep_inplace_change_then_ortho']))
-    if draw(st.sampled_from([False] * 11 + [True])):
+    if draw(st.sampled_from([False] * 23 + [True])):
         # two large modes and a full-rank bond (core matrices of 48 ... 60 rows and columns) under a small cap: for order 2 the bound
         # is the best rank-r error itself, so any decomposition that is only nearly optimal (randomised, iterative) exceeds it
         n1, n2 = draw(st.integers(48, 60)), draw(st.integers(48, 60))
